@@ -95,6 +95,23 @@ def now():
     return time.monotonic()
 
 
+def read_log(logpath):
+    """Tokens of the answers the child wrote (its side file), then remove the file."""
+    written = []
+    try:
+        with open(logpath) as f:
+            for ln in f:
+                if ln.startswith("W "):
+                    written.append(int(ln[2:]))
+    except (OSError, ValueError):
+        pass
+    try:
+        os.unlink(logpath)
+    except OSError:
+        pass
+    return written
+
+
 async def request(read, write, method, tok, timeout):
     try:
         r = await send_message(read, write, method, {"tok": tok}, timeout=timeout)
@@ -273,15 +290,7 @@ async def run_scenario(sc):
                 if pstate(p) == "gone":
                     break
                 await asyncio.sleep(0.02)
-    written = []
-    try:
-        with open(logpath) as f:
-            for ln in f:
-                if ln.startswith("W "):
-                    written.append(int(ln[2:]))
-        os.unlink(logpath)
-    except OSError:
-        pass
+        written = read_log(logpath)
     t0, t1 = info.pop("t0", None), info.pop("t1", None)
     info.update({
         "pid": p, "signals": [s for q, s in SIGNALS[n_sig0:] if q == p],
